@@ -73,7 +73,15 @@ ReqRegion(req, id) ==
 
 RegIdx(regs, id) == {i \in 1..Len(regs) : regs[i].id = id}
 
-PluginApi(ps, req, freshId) ==
+\* `tie`: margin (native units) by which the new region of an update has to exceed the old one.
+\* The design value is 0 (closed containment); the implementation decides in binary floating
+\* point and may refuse a request whose borders touch exactly, which the trace specification
+\* resolves by trying tie = 1 (refusing is always safe for C12).
+Shrunk(r, tie) ==
+    IF r.t = "rect" THEN [r EXCEPT !.a = @ + tie, !.b = @ + tie, !.c = @ - tie, !.d = @ - tie]
+    ELSE [r EXCEPT !.c = @ - tie]
+
+PluginApiT(ps, req, freshId, tie) ==
     LET regs == ps.fs.regs
         refuse(code) == [ps |-> ps, status |-> code, notes |-> <<>>]
         mustContain == ~ps.mayShrink /\ ps.active
@@ -95,11 +103,13 @@ PluginApi(ps, req, freshId) ==
             IN  IF ~req.hasId \/ idx = {} THEN refuse(409)
                 ELSE LET i == CHOOSE i \in idx : TRUE
                          new == ReqRegion(req, req.id)
-                     IN  IF mustContain /\ ~ContainsRegion(new, regs[i], ps.fs.cf.q)
+                     IN  IF mustContain /\ ~ContainsRegion(Shrunk(new, tie), regs[i], ps.fs.cf.q)
                          THEN refuse(409)
                          ELSE LET regs1 == [regs EXCEPT ![i] = new]
                               IN  [ps |-> [ps EXCEPT !.fs.regs = regs1], status |-> 0,
                                    notes |-> <<regs1>>]
         ELSE refuse(400)
+
+PluginApi(ps, req, freshId) == PluginApiT(ps, req, freshId, 0)
 
 =============================================================================
